@@ -6,6 +6,7 @@ Reads from /repo/src (current working tree):
   * eval.rs   `Eval::match_call_pattern` — the `InAnyOrder` iterator chain (receiver, adaptor sequence, the three arms of
               the `filter_map` closure, whether diagnostics are collected while scanning, which index `map_err` reports)
               and the `InOrder` block as a statement list;
+  * fn_mocker.rs `FnMocker::find_call_pattern_for_call_order` — how the first owning pattern is looked up (three spellings known);
   * state.rs  `SharedState::bump_ordered_call_index` — the atomic operation, its increment and ordering.
 The vocabulary and its interpreters are in `Model/ScanSkel.lean`; `Props/C01.lean` and `Props/C04.lean` prove the
 interpreted skeletons equal to the hand-written model's `scan` / ordered branch (so a source change that alters the
@@ -290,6 +291,28 @@ def match_inputs_arms(cp):
     return True, out
 
 
+def find_skel(fm):
+    """`FnMocker::find_call_pattern_for_call_order`: (recognised, over, adaptors, ownIndex). The ownership test itself is
+    translated by tools/translate_counter.py (`Generated.ownsSrc`)."""
+    body = fn_body(fm, 'find_call_pattern_for_call_order')
+    if body is None:
+        return False, True, [], True
+    flat = re.sub(r'\s+', '', body)
+    m = re.fullmatch(r'for\((\w+),(\w+)\)in(self\.call_patterns)\.iter\(\)\.enumerate\(\)\{if.*\{returnSome\(\(PatIndex\(\1\),\2\)\);?\}\}None', flat, flags=re.S)
+    if m:
+        return True, True, ['.iter', '.enumerate', '.forReturn'], True
+    m = re.fullmatch(r'let(\w+)=(self\.call_patterns)\.iter\(\)\.position\(.*\)\?;Some\(\(PatIndex\(\1\),&self\.call_patterns\[\1\]\)\)', flat, flags=re.S)
+    if m:
+        return True, True, ['.iter', '.position', '.index'], True
+    if flat.startswith('self.call_patterns.') or re.match(r'self\.\w+\.iter\(\)', flat):
+        recv, calls = method_chain(flat)
+        names = {'iter': 'iter', 'enumerate': 'enumerate', 'find': 'find', 'map': 'map', 'rev': 'rev', 'last': 'last', 'skip': 'skip', 'position': 'position'}
+        adaptors = ['.' + names.get(n, 'other') for n, _ in calls]
+        own = any(n == 'map' and re.fullmatch(r'\|\((\w+),(\w+)\)\|\(PatIndex\(\1\),\2\)', a.rstrip(',')) for n, a in calls)
+        return True, recv == 'self.call_patterns', adaptors, own
+    return False, True, [], True
+
+
 def main():
     notes = []
     ev = strip(open(os.path.join(ROOT, 'eval.rs')).read())
@@ -348,6 +371,11 @@ def main():
     if not rec_mi:
         mi = [('some true', 'some true', '.callGiven'), ('some true', 'some false', '.callDisabled'), ('some false', 'none', '.errNoMatcher')]
         notes.append('UNRECOGNISED shape of CallPattern::match_inputs: fallback to the model\'s own arms, C01_source_match_inputs vacuous, tie = correspondence run')
+    fm_path = os.path.join(ROOT, 'fn_mocker.rs')
+    rec_find, f_over, f_adapt, f_own = find_skel(strip(open(fm_path).read())) if os.path.exists(fm_path) else (False, True, [], True)
+    if not rec_find:
+        f_over, f_adapt, f_own = True, ['.iter', '.enumerate', '.find', '.map'], True
+        notes.append('UNRECOGNISED shape of FnMocker::find_call_pattern_for_call_order: fallback, C04_source_find vacuous, tie = correspondence run')
     b = lambda x: 'true' if x else 'false'
     lines = [
         'import Unimock.Model.ScanSkel',
@@ -367,12 +395,15 @@ def main():
         f'def recognised_matchInputs : Bool := {b(rec_mi)}',
         '/-- `CallPattern::match_inputs`: the arms of its `match (&self.input_matcher.dyn_matching_fn, mismatch_reporter)` -/',
         'def matchInputsArms : List MIArm := [' + ', '.join(f'⟨{a}, {r}, {x}⟩' for a, r, x in mi) + ']',
+        f'def recognised_find : Bool := {b(rec_find)}',
+        '/-- `FnMocker::find_call_pattern_for_call_order` (its ownership test is `Generated.ownsSrc`, translate_counter.py) -/',
+        f'def findSkel : FindSkel := {{ overCallPatterns := {b(f_over)}, adaptors := [{", ".join(f_adapt)}], ownIndex := {b(f_own)} }}',
         'end Unimock.Generated', '']
     tmp = OUT + _TMP
     open(tmp, 'w').write('\n'.join(lines))
     _finalise(tmp, OUT)
     print(f"translate_scan: anyOrder adaptors={[a[1:] for a in adaptors]} arms={on} reporterNone={rep_none} ownIdx={own_idx}; "
-          f"ordered={[s[1:] for s in osteps]}; bump={op}+{delta} seqcst={seq}; match_inputs arms={[x[1:] for _, _, x in mi]}" + ('; notes: ' + '; '.join(notes) if notes else ''))
+          f"ordered={[s[1:] for s in osteps]}; bump={op}+{delta} seqcst={seq}; match_inputs arms={[x[1:] for _, _, x in mi]}; find={[a[1:] for a in f_adapt]}" + ('; notes: ' + '; '.join(notes) if notes else ''))
 
 
 if __name__ == '__main__':
